@@ -141,20 +141,31 @@ def ensure_gen():
     for f in os.listdir(g + '.tmp'): os.replace(os.path.join(g + '.tmp', f), os.path.join(g, f))
     shutil.rmtree(g + '.tmp', ignore_errors=True)
 
-def prune_builds(keep=4):
+def prune_builds(keep=4, min_age=4 * 3600):
+    """Evicts the least recently used tree directories beyond `keep`.  Never touches a tree that was used in the last four hours or whose lock is held
+    (several checks may run against different scratch trees at once; one of them may still be waiting for its lock)."""
     try:
-        ds = [d for d in glob.glob(os.path.join(BUILD, '*')) if os.path.isdir(d) and os.path.basename(d) != 'engine']
-        ds.sort(key=lambda d: os.path.getmtime(os.path.join(d, '.used')) if os.path.exists(os.path.join(d, '.used')) else 0, reverse=True)
+        ds = [d for d in glob.glob(os.path.join(BUILD, '*')) if os.path.isdir(d) and os.path.basename(d) != 'engine' and not os.path.basename(d).startswith('head-include-')]
+        used = lambda d: os.path.getmtime(os.path.join(d, '.used')) if os.path.exists(os.path.join(d, '.used')) else os.path.getmtime(d)
+        ds.sort(key=used, reverse=True)
         for d in ds[keep:]:
-            shutil.rmtree(d, ignore_errors=True)
+            if time.time() - used(d) < min_age: continue
+            try:
+                with open(os.path.join(d, '.lock'), 'a') as lk:
+                    fcntl.flock(lk, fcntl.LOCK_EX | fcntl.LOCK_NB)
+                    shutil.rmtree(d, ignore_errors=True)
+            except OSError:
+                continue
     except Exception:
         pass
 
 def build(names, flavour='n'):
     """Builds the binaries `names` for the current tree; returns {name: path}.  Serialised per tree by flock."""
     os.makedirs(tree_dir(), exist_ok=True)
+    open(os.path.join(tree_dir(), '.used'), 'w').write(str(time.time()))
     with open(os.path.join(tree_dir(), '.lock'), 'w') as lk:
         fcntl.flock(lk, fcntl.LOCK_EX)
+        os.makedirs(tree_dir(), exist_ok=True)
         open(os.path.join(tree_dir(), '.used'), 'w').write(str(time.time()))
         ensure_gen()
         objs = []
